@@ -23,6 +23,9 @@ LITERAL_EVAL = {'builtin:ValueError': ORDINARY, 'builtin:TypeError': ORDINARY,
                 # literal_eval('1' + '0' * 400 + '+1j') -> "int too large to
                 # convert to float" (a huge int literal added to a complex)
                 'builtin:OverflowError': ORDINARY}
+# str() / repr() of an evaluated literal: ValueError for an int beyond the
+# integer string conversion length limit (CPython >= 3.11, default 4300
+# digits; literal_eval itself accepts hexadecimal literals of any length)
 
 
 def region_functions(prog):
@@ -287,9 +290,31 @@ def sites_of(prog, f, miss_raises, proto=frozenset()):
     for a in walk_no_nested(f.node):
         if isinstance(a, ast.AnnAssign):
             ann |= {id(x) for x in ast.walk(a.annotation)}
+    # names holding what ast.literal_eval produced
+    lit_names = set()
+    for n in walk_no_nested(f.node):
+        if isinstance(n, (ast.Assign, ast.AnnAssign, ast.NamedExpr)) and \
+                isinstance(n.value, ast.Call) and prog.resolve(
+                    f.module, n.value.func) == 'ext:ast.literal_eval':
+            tg = n.targets if isinstance(n, ast.Assign) else [n.target]
+            lit_names |= {t.id for t in tg if isinstance(t, ast.Name)}
+
+    def from_literal(e):
+        return (isinstance(e, ast.Name) and e.id in lit_names) or (
+            isinstance(e, ast.Call) and prog.resolve(
+                f.module, e.func) == 'ext:ast.literal_eval')
     for n in walk_no_nested(f.node):
         if id(n) in ann:
             continue
+        if isinstance(n, ast.Call) and isinstance(n.func, ast.Name) and \
+                n.func.id in ('str', 'repr', 'format') and n.args and \
+                from_literal(n.args[0]) and prog.resolve(
+                    f.module, n.func) in ('builtin:str', 'builtin:repr',
+                                          'builtin:format'):
+            # an int literal of more than sys.get_int_max_str_digits()
+            # digits evaluates, but its conversion back to text raises
+            out.append((n, 'text of an evaluated literal %s' % U(n)[:40],
+                        {'builtin:ValueError': ORDINARY}))
         if isinstance(n, ast.BinOp) and isinstance(n.op, ast.Mod):
             lt = U(n.left)
             if 'self.match' in lt and not isinstance(n.left, ast.Constant):
